@@ -271,8 +271,11 @@ func registerNd(e *Engine) {
 			base := x.allocSeq
 			x.trackWrite = true
 			x.writeLog, x.mapWrites = nil, nil
+			x.released, x.poolUse = nil, 0
 			x.callValue(c.V, nil, caller)
 			x.trackWrite = false
+			viol += x.poolUse
+			x.released, x.poolUse = nil, 0
 			check := func(k interface{}, a *Alloc) {
 				switch {
 				case a != nil && a.Glob != "":
